@@ -416,9 +416,14 @@ def e2e(ctx):
             why = "neither the permitted sites nor all of them"
         ctx.violation(cls, f"{k} on {r_} (sites {f['sites']}) with --path-exclude {o['exc']} --path-include {o['inc']} rewrote the sites on lines "
                       f"{f['rewritten']}; {why}", replay)
-    # conforming codemods must also agree with the model of the variant the source implements (tie of the e2e path)
+    # conforming codemods must also agree with the model of the variant the source implements (tie of the e2e path);
+    # the filtering-transformer model is not claimed for the transformers listed as not consulting the filter
+    not_filtering = {e["class"].split(":", 1)[1] for e in core.load_known("C13")
+                     if e.get("status") == "known" and e["class"].startswith("kf_no_line_filter:")}
     for i in sorted(current_bad - set(bad["site_spec_ok"])):
         j, o, r_, f, replay = meta[i]
+        if j["codemod"] in not_filtering:
+            continue
         ctx.mismatch("CLI line filtering vs Model.LineFilter (current variant)", f"{j['codemod']} rewrote {f['rewritten']}", replay)
 
 
